@@ -16,6 +16,7 @@ Oracles
                finest level (DESIGN section 5);
                the geotherm's own columns unchanged, in order, followed by one column per variable.
 """
+import math
 import os
 import shutil
 import tempfile
@@ -395,15 +396,33 @@ def geotherm_path(dom, kind, npts):
     T0, T1, P0, P1 = dom
     HT, HP = (T1 - T0) / 20, (P1 - P0) / 20
     hT, hP = (T1 - T0) / 80, (P1 - P0) / 80
+    # kind = "<placement>" (a geotherm: P and T increasing) or "<shape>:<placement>" with a non-monotonic shape:
+    #   cycle   heating-cooling at one pressure: (P*, T low) -> (P*, T high) -> back; first row == last row
+    #   loop    a closed loop in the P-T plane (compression-decompression and heating-cooling out of phase)
+    #   zigzagP pressure jumping between the two ends of the range, ends of the file close together
+    shape, _, kind = kind.rpartition(":")
+    shape = shape or "geotherm"
     if npts == 1:
         ips = [7]
     elif npts == 3:
         ips = [2, 9, 17]
     else:
         ips = [int(round(i * 20 / (npts - 1))) for i in range(npts)]
+    jts = [int(round(18 * (ip / 20) ** 0.5)) for ip in ips]
+    if shape == "cycle":
+        ips = [10] * npts
+        jts = [3] if npts == 1 else [1 + int(round(18 * (1 - abs(2 * i / (npts - 1) - 1)))) for i in range(npts)]
+    elif shape == "loop":
+        ang = [0.0] if npts == 1 else [2 * math.pi * i / (npts - 1) for i in range(npts)]
+        ips = [10 + int(round(8 * math.cos(a))) for a in ang]
+        jts = [10 + int(round(8 * math.sin(a))) for a in ang]
+    elif shape == "zigzagP":
+        ips = [2 + (i // 2) % 8 if i % 2 == 0 else 18 - (i // 2) % 8 for i in range(npts)]
+        jts = [int(round(18 * (ip / 20) ** 0.5)) for ip in ips]
+    elif shape != "geotherm":
+        raise HarnessError(f"unknown path shape {shape}")
     pts = []
-    for i, ip in enumerate(ips):
-        jt = int(round(18 * (ip / 20) ** 0.5))
+    for i, (ip, jt) in enumerate(zip(ips, jts)):
         P, T = P0 + ip * HP, T0 + jt * HT
         between = kind == "between" or (kind == "mixed" and i % 2 == 1)
         if between:
@@ -413,6 +432,8 @@ def geotherm_path(dom, kind, npts):
             P = P + fP * hP if ip < 20 else P - fP * hP
             T = T + fT * hT if jt < 20 else T - fT * hT
         pts.append((round(P, 6), round(T, 6), not between))
+    if shape in ("cycle", "loop") and npts > 1:
+        pts[-1] = pts[0]                              # closed: the file ends on the row it started with
     return pts
 
 
@@ -587,6 +608,39 @@ def _new_state():
     return {"ratio_bound": 0.0, "ratio_cell": 0.0, "nodes": 0, "between": 0, "swapped": 0, "straight": 0}
 
 
+GEODIRS = ["cwd", "sibling-notables:rel", "sibling-full:rel", "sibling-full:abs", "sibling-some:rel", "sibling-some:abs",
+           "subdir-full:rel", "parent-full:rel"]
+GEO_KOFF = 60        # tables next to the geotherm file: same names, other values
+
+
+def _place_geotherm(root, geodir, text, kind, dom, nT, nP, variables):
+    """Working directory (returned first) and the -g argument for a geotherm file that is not in it.  The
+    other directory holds its own, different-valued tables of all / some of the requested variables."""
+    where, _, how = geodir.partition(":")
+    if where == "parent-full":
+        other, cwd = os.path.join(root, "M"), os.path.join(root, "M", "A")
+        arg = os.path.join("..", "geo.dat")
+    elif where == "subdir-full":
+        cwd, other = os.path.join(root, "A"), os.path.join(root, "A", "geotherms")
+        arg = os.path.join("geotherms", "geo.dat")
+    else:
+        cwd, other = os.path.join(root, "A"), os.path.join(root, "B")
+        arg = "geo.dat" if where == "cwd" else os.path.join("..", "B", "geo.dat")
+    os.makedirs(cwd, exist_ok=True)
+    if where == "cwd":
+        other = cwd
+    else:
+        os.makedirs(other, exist_ok=True)
+        some = variables[::2] if len(variables) > 1 else variables
+        for var in (variables if where.endswith("-full") else some if where == "sibling-some" else []):
+            _put_table(os.path.join(other, FNAME[var]), kind, KIDX[var] + GEO_KOFF, dom, nT, nP)
+    with open(os.path.join(other, "geo.dat"), "w") as fp:
+        fp.write(text)
+    if how == "abs":
+        arg = os.path.join(other, "geo.dat")
+    return cwd, arg
+
+
 def run_geotherm(case):
     dom = RANGES[case["range"]]
     kind = case["fn"]
@@ -601,25 +655,26 @@ def run_geotherm(case):
     viol, st = [], _new_state()
     errs = []      # per level: list of |value - g| per (variable, between-node point)
     floors = []
+    geodir = case.get("geodir", "cwd")
     for (nT, nP) in levels:
-        d = tempfile.mkdtemp(prefix="c19-", dir="/dev/shm")
+        root = tempfile.mkdtemp(prefix="c19-", dir="/dev/shm")
         try:
+            d, garg = _place_geotherm(root, geodir, R.format_geotherm([n for n, _ in spec], rows), kind, dom, nT, nP, variables)
             _populate(d, kind, dom, nT, nP, "small")
-            with open(os.path.join(d, "geo.dat"), "w") as fp:
-                fp.write(R.format_geotherm([n for n, _ in spec], rows))
-            args = ["extract-geotherm", "-g", "geo.dat", "-v", ",".join(variables)] + opts + (["-h"] if hide else [])
+            args = ["extract-geotherm", "-g", garg, "-v", ",".join(variables)] + opts + (["-h"] if hide else [])
             code, exc, out = _invoke(d, args)
             if code != 0 or exc is not None:
                 viol.append(V(f"c19:geotherm:crash:{type(exc).__name__}", f"{' '.join(args)} [{nT}x{nP}] -> exit {code}, {exc!r}"))
                 errs.append(None)
                 continue
             r = _check_geotherm(out, d, kind, dom, nT, nP, variables, spec, rows, byrole, pts, hide, viol, st,
-                                finest=(nT, nP) == levels[-1], probe=probe)
+                                finest=(nT, nP) == levels[-1], probe=probe,
+                                stale_koffs=[] if geodir == "cwd" else [(GEO_KOFF, "tables-of-the-geotherm-file-directory")])
             errs.append(None if r is None else r[0])
             if r is not None:
                 floors += r[1]
         finally:
-            shutil.rmtree(d, ignore_errors=True)
+            shutil.rmtree(root, ignore_errors=True)
     info = {"ratio_bound": st["ratio_bound"], "ratio_cell": st["ratio_cell"], "errs": []}
     # convergence along the ladder (generic smooth function, points between nodes)
     if kind == "smooth" and len(levels) == 3 and not probe and all(e is not None for e in errs) and errs[0]:
@@ -646,7 +701,7 @@ def run_geotherm(case):
                                       "values-correct" if stt and not sw else f"mixed({sw},{stt})"))
         return {"viol": viol, "outcome": outcome, "nontrivial": False}
     lay = case.get("family") or case.get("layout")
-    outcome = f"geotherm:{kind}:{case['path']}:{lay}:{case.get('rows', 'asis')}:" + ("ok" if not viol else "bad")
+    outcome = f"geotherm:{kind}:{case['path']}:{lay}:{case.get('rows', 'asis')}:{geodir}:" + ("ok" if not viol else "bad")
     res = {"viol": _cap(viol), "outcome": outcome, "nontrivial": st["nodes"] + st["between"] > 0}
     res.update(info)
     return res
@@ -656,8 +711,9 @@ def run_geotherm(case):
 
 SEQ_VARS = ["c11s", "v"]
 SEQ_DIRS = {"A": ("81x41", 0), "B": ("41x41", 60)}      # same file names, different tables (and grids)
-SEQ_OPS_QUICK = ["xA-T", "xB-P", "wA", "gA", "gB"]
-SEQ_OPS = ["xA-T", "xA-P", "xB-T", "xB-P", "wA", "gA", "gB"]
+# gA<B: extract-geotherm run in A with the geotherm file of B (-g ../B/geo.dat): A's tables are the ones to read
+SEQ_OPS_QUICK = ["xA-T", "xB-P", "wA", "gA", "gB", "gA<B"]
+SEQ_OPS = ["xA-T", "xA-P", "xB-T", "xB-P", "wA", "gA", "gB", "gA<B", "gB<A"]
 
 
 def run_sequence(case):
@@ -736,13 +792,17 @@ def run_sequence(case):
                 compared += _check_extract_output(out, d, SEQ_VARS, axis, want, False, "mid+", viol, dirvars,
                                                   tag="c19:sequence:extract", elsewhere=elsewhere)
             elif op[0] == "g":
-                args = ["extract-geotherm", "-g", "geo.dat", "-v", ",".join(SEQ_VARS)]
+                src = op.partition("<")[2]
+                other = [n for n in dirs if n != name][0]
+                args = ["extract-geotherm", "-g", os.path.join("..", src, "geo.dat") if src else "geo.dat", "-v", ",".join(SEQ_VARS)]
                 code, exc, out = _invoke(d, args)
                 if code != 0 or exc is not None:
                     viol.append(V(f"c19:sequence:geotherm:crash:{type(exc).__name__}", f"step {step} {op} {hist}: exit {code}, {exc!r}"))
                     continue
                 r = _check_geotherm(out, d, kind, dom, nT, nP, SEQ_VARS, spec, rows, byrole, pts, False, viol, st,
-                                    koff=koff[name], stale_koffs=[(k_, lab) for lab, _, k_ in versions("g", name)],
+                                    koff=koff[name],
+                                    stale_koffs=([(koff[other], "tables-of-the-geotherm-file-directory")] if src else [])
+                                    + [(k_, lab) for lab, _, k_ in versions("g", name)],
                                     tag="c19:sequence:geotherm")
                 compared += 0 if r is None else len(SEQ_VARS)
             else:
@@ -1053,7 +1113,7 @@ def geotherm_cases(quick):
         fns.insert(0, ("poly3", ["41x41"]))
     for rng in ("R1", "R2"):
         for fn, grids in fns:
-            for path in ("nodes", "between", "mixed"):
+            for path in (("nodes", "between", "mixed") if quick else ("nodes", "between", "mixed") + tuple(NONMONO)):
                 for npts in (1, 3, 50):
                     for nv in (1, 2, 5):
                         # quick: the header layouts are varied on the bicubic tables only (one run per case); the
@@ -1062,6 +1122,24 @@ def geotherm_cases(quick):
                             for hide in ((False,) if quick and layout != "L0" else (False, True)):
                                 cases.append({"kind": "geotherm", "range": rng, "fn": fn, "grids": grids, "path": path,
                                               "npts": npts, "nvars": nv, "layout": layout, "hide": hide})
+    return cases
+
+
+NONMONO = ["cycle:mixed", "loop:mixed", "zigzagP:mixed"]
+
+
+def geotherm_location_cases(quick):
+    """Where the geotherm file lives x how it is named on the command line (x path, points, variables)."""
+    cases = []
+    fns = [("poly3", ["41x41"])] if quick else [("poly3", ["41x41"]), ("smooth", ["21x21", "41x41", "81x81"])]
+    for geodir in GEODIRS:
+        for rng in ("R1", "R2"):
+            for fn, grids in fns:
+                for path, npts in ((("mixed", 3),) if quick else (("mixed", 3), ("nodes", 50), ("between", 1), ("loop:mixed", 50))):
+                    for nv in (2, 5):
+                        for layout in (("L0",) if quick else ("L0", "L2")):
+                            cases.append({"kind": "geotherm", "range": rng, "fn": fn, "grids": grids, "path": path, "npts": npts,
+                                          "nvars": nv, "layout": layout, "hide": False, "geodir": geodir})
     return cases
 
 
@@ -1087,7 +1165,7 @@ def row_order_cases(quick):
     for how in ROW_ORDERS:
         for rng in ("R1", "R2"):
             for fn, grids in fns:
-                for path in ("nodes", "between", "mixed"):
+                for path in ("nodes", "between", "mixed") + tuple(NONMONO if (how == "asis" or not quick) else ()):
                     for npts in (1, 3, 50):
                         for layout in (("L0",) if quick else ("L0", "L1", "L3")):
                             cases.append({"kind": "geotherm", "range": rng, "fn": fn, "grids": grids, "path": path, "npts": npts,
@@ -1148,7 +1226,11 @@ def explore(ctx):
         "outside the table); row multiset/order of the geotherm file {as is, an exactly repeated row first/middle/last, two "
         "repeated rows, a non-adjacent repeat, equal (P,T) with other passthrough values, reversed, zig-zag, P decreasing} x "
         "{nodes, between, mixed} x {1,3,50 points} x {R1,R2} (oracle per row: output row k = file row k + value at its (P,T); "
-        "as many output rows as input rows). Real-writer chains: histories of 1..3 synthetic calculations (mc.synth, two different "
+        "as many output rows as input rows); non-monotonic path shapes {heating-cooling cycle at one pressure with first row == last "
+        "row, closed loop in the P-T plane, pressure zig-zag} x {1,3,50 points}; location of the geotherm file {working directory; "
+        "sibling directory without tables / with its own different-valued tables of all / of some requested variables, named by "
+        "relative and by absolute path; a subdirectory and the parent directory holding such tables}: the tables of the WORKING "
+        "directory are the ones read. Real-writer chains: histories of 1..3 synthetic calculations (mc.synth, two different "
         "data sets, full or reduced output list) written into ONE directory by Calculator.write_output() or `cij run`, then extract "
         "-T/-P and extract-geotherm (nodes) with all written variables, in the directory as written and in two plain copies (entries "
         "created in ascending / descending name order), compared with the table written LAST per variable. Mode B: every history of length 2..3 (thorough 2..4) over {extract in directory A, extract in "
@@ -1229,6 +1311,8 @@ def _explore(ctx, q):
     timed(ho, "geotherm-header-orders")
     ro = row_order_cases(q)
     timed(ro, "geotherm-row-orders")
+    gl = geotherm_location_cases(q)
+    timed(gl, "geotherm-file-location")
     pr = timed(option_name_probes(), "geotherm-option-name-probe")
     dc = decoy_cases()
     dr = timed(dc, "extract-name-extending-decoys-probe")
@@ -1241,6 +1325,8 @@ def _explore(ctx, q):
         "every_position": {"cases": len(ap), "requests": sum(len(c["reqs"]) for c in ap)},
         "geotherm": {"ranges": 2, "function_x_grid": 2 if q else 3, "paths": 3, "npts": 3, "nvars": 3,
                      "layouts": 3 if q else 4, "header": 2, "cases": len(geo)},
+        "geotherm_file_location": {"locations": len(GEODIRS), "ranges": 2, "nvars": 2, "cases": len(gl)},
+        "nonmonotonic_path_shapes": NONMONO,
         "row_orders": {"arrangements": len(ROW_ORDERS), "ranges": 2, "paths": 3, "npts": 3, "layouts": 1 if q else 3,
                        "function_x_grid": 1 if q else 3, "cases": len(ro)},
         "header_orders": {"families": len(HEADER_FAMILIES), "orders_each": 24, "ranges": 2, "paths": 1 if q else 4, "cases": len(ho)},
@@ -1384,6 +1470,21 @@ def selftest():
                     rows_ = {tuple(r[:41:2]) for r in Z} | {tuple(c[:41:2]) for c in Z.T}
                     check(not (rows_ & seen), f"sequence tables of {var} share a row/column (koff {k_})")
                     seen |= rows_
+        # 4b'. non-monotonic path shapes: inside the table, node flags right, first row == last row for the closed ones
+        for rng in ("R1", "R2"):
+            dom = RANGES[rng]
+            for path in NONMONO + ["cycle:nodes", "loop:between"]:
+                for npts in (1, 3, 50):
+                    pts = geotherm_path(dom, path, npts)
+                    check(len(pts) == npts and all(dom[2] <= P <= dom[3] and dom[0] <= T <= dom[1] for P, T, _ in pts), f"{path}{npts} leaves the table")
+                    for P, T, on in pts:
+                        for n in LADDER:
+                            check((_is_node(T, dom[0], dom[1], n) and _is_node(P, dom[2], dom[3], n)) == on, f"{path}{npts}: node flag at {(P, T)}")
+                    if npts > 1 and not path.startswith("zigzagP"):
+                        check(pts[0][:2] == pts[-1][:2], f"{path}{npts} is not closed")
+                        spanT = (max(T for _, T, _ in pts) - min(T for _, T, _ in pts)) / (dom[1] - dom[0])
+                        spanP = (max(P for P, _, _ in pts) - min(P for P, _, _ in pts)) / (dom[3] - dom[2])
+                        check(max(spanT, spanP) >= 0.7, f"{path}{npts}: excursion too small")
         # 4c. row arrangements: every one keeps all points; the dup-* ones contain an exactly repeated file row
         spec0 = LAYOUTS["L1"][0]
         for npts in (1, 3, 50):
